@@ -44,7 +44,8 @@ def generate(tier, rng):
                         attrs.append('vis(pub)')
                     if mode in (3, 4):
                         e.extra['dvis'] = 2
-                        attrs.append('vis(pub(crate))')
+                        # an EMPTY vis() is an override too (private): no IntoDiscriminant impl
+                        attrs.append('vis()' if k % 12 == 3 else ('vis(pub(super))' if k % 12 == 9 else 'vis(pub(crate))'))
                     if mode in (0, 2, 4):
                         attrs.append('derive(Hash, PartialOrd, Ord)')
                         asserts.append('fn _needs_hash_ord<X: core::hash::Hash + Ord>() {} fn _chk_hash() { _needs_hash_ord::<$D>(); }')
@@ -57,7 +58,10 @@ def generate(tier, rng):
                         for j, v in enumerate(e.variants):
                             if j % 2 == 0:
                                 v_attr = '#[strum_discriminants(strum(serialize = "pt-%d"))]' % j
-                                e.extra.setdefault('variant_attrs', {})[v.ident] = [v_attr]
+                                # several strum_discriminants attributes on one variant are all passed through
+                                more = ['#[strum_discriminants(doc = "second attribute")]'] if j % 4 == 0 else []
+                                pre = ['#[strum_discriminants(allow(dead_code))]'] if j % 4 == 2 else []
+                                e.extra.setdefault('variant_attrs', {})[v.ident] = pre + [v_attr] + more
                                 e.extra['pt_expect'][v.ident] = 'pt-%d' % j
                             else:
                                 e.extra['pt_expect'][v.ident] = v.ident
